@@ -110,7 +110,9 @@ func (fx *fnExec) ghostSort(ty string) string {
 		return SStr
 	case "IntMap":
 		return arrSort(SInt, SInt)
-	case "BoolMap":
+	case "BoolMap", "RefBoolMap":
+		// RefBoolMap: a set of allocated objects; the engine keeps "g[r] ==> alive(r)" (checked at every update,
+		// assumed after every havoc), so that a freshly allocated object is never in the set
 		return arrSort(SInt, SBool)
 	case "StrBoolMap":
 		return arrSort(SStr, SBool)
@@ -129,6 +131,16 @@ func (fx *fnExec) initGhosts() {
 			fx.needStr()
 		}
 		fx.ghostTypes[g.Name] = g.Type
+		if id, ok := g.Init.(EIdent); ok && id.Name == "empty" && strings.HasPrefix(so, "(Array") {
+			// map-valued ghost that starts empty: constant array of false / 0
+			_, es, _ := arrParts(so)
+			def := "0"
+			if es == SBool {
+				def = "false"
+			}
+			fx.st.ghost[g.Name] = Sc{Term{"((as const " + so + ") " + def + ")", so}, nil}
+			return
+		}
 		if g.Init != nil {
 			env := &SpecEnv{fx: fx, cur: fx.st, old: fx.st, names: map[string]SV{}, bound: map[string]SV{}}
 			for k, v := range fx.paramEntry {
@@ -934,6 +946,22 @@ func (fx *fnExec) evalCall(x ECall, env *SpecEnv) SV {
 			cs = append(cs, Term{fmt.Sprintf("(forall ((r$q Int)) (! %s :pattern ((select %s r$q))))", body.S, hc.S), SBool})
 		}
 		return Sc{tAnd(cs...), nil}
+	case "addr":
+		// address of a named local variable that lives in the heap (its address is taken in the code)
+		id, ok := x.Args[0].(EIdent)
+		if !ok || len(x.Args) != 1 {
+			panic(vcErr("addr(x): x must be a local variable"))
+		}
+		c, found := fx.lookupCell(id.Name)
+		a, isAlloc := c.(*ssa.Alloc)
+		if !found || !isAlloc || isCellAlloc(a) {
+			panic(vcErr("addr(%s): not a heap-allocated local variable", id.Name))
+		}
+		ref, ok := fx.vals[a].(Sc)
+		if !ok {
+			panic(vcErr("variable %q is not allocated yet at this point", id.Name))
+		}
+		return Sc{ref.T, a.Type()}
 	case "fresh":
 		// allocated by this call: not alive before, alive now
 		v := fx.evalSpec(x.Args[0], env)
@@ -1081,7 +1109,11 @@ func (fx *fnExec) runHook(h Hook, env *SpecEnv, where string) {
 					panic(vcErr("%s: unsupported ghost lvalue %s", h.Where, a.LHS))
 				}
 				is, es, _ := arrParts(os.T.So)
-				nt = tStore(os.T, fx.sc(fx.evalSpec(ix.I, env), is), fx.sc(nv, es))
+				key := fx.sc(fx.evalSpec(ix.I, env), is)
+				if fx.ghostTypes[root] == "RefBoolMap" {
+					fx.oblige("ghost:"+root+":key-allocated", "site.hook", tImp(guard, tOr(tNot(fx.sc(nv, es)), tSel(fx.alive(fx.st), key))), where, "only allocated objects enter the set "+root)
+				}
+				nt = tStore(os.T, key, fx.sc(nv, es))
 			}
 			fx.st.ghost[root] = Sc{tIte(guard, nt, os.T), nil}
 		case "havoc":
